@@ -1,1 +1,162 @@
-From LLGoV Require Import C10.Model C10.Proofs.
+(* C10 - property theorems only.  Model: C10/Model.v, an interleaving semantics of
+   ChanSend / ChanRecv / ChanTrySend / ChanTryRecv / ChanClose of z_chan.go on one
+   channel: [run sc (init n progs)] is the state after the schedule sc (any list of
+   thread ids; a step of a parked thread is a spurious wake-up) from n = capacity and
+   any number of threads with any programs.  Every theorem quantifies over ALL
+   schedules and all thread sets; nothing is proved by exploration.
+   The buffered channel (n > 0) refines Go's channel (the executable specification
+   [spec_step]) up to finding F5 (send on closed returns false instead of panicking,
+   written as the event ESendClosed; close of a closed channel is accepted).
+   For the unbuffered channel the corresponding statements are false of the code:
+   the *_refuted theorems give explicit schedules (replayed on the real z_chan.go by
+   props/C10/check.py on every run). *)
+From LLGoV Require Import Lib.Common C10.Model C10.Proofs.
+
+(* the sequence of Go-level events of every execution is one that Go's channel
+   semantics allows, and the ring buffer holds exactly the specification's queue *)
+Theorem buffered_refines_go_channel : forall n progs sc, 0 < n ->
+  spec_run n (mkSpec [] false) (events (run sc (init n progs)))
+  = Some (abs (run sc (init n progs))).
+Proof. exact run_refines. Qed.
+Print Assumptions buffered_refines_go_channel.
+
+Theorem buffered_never_exceeds_cap : forall n progs sc, 0 < n ->
+  len (ch (run sc (init n progs))) <= n /\
+  length (contents (ch (run sc (init n progs)))) <= n.
+Proof. exact run_cap. Qed.
+Print Assumptions buffered_never_exceeds_cap.
+
+(* FIFO, at most once, and exactly once up to what is still buffered: the values
+   received so far, in the order of the receives, followed by the buffer contents,
+   are the values sent so far in the order of the sends *)
+Theorem buffered_fifo_exactly_once : forall n progs sc, 0 < n ->
+  sent_of (events (run sc (init n progs))) =
+  rcvd_of (events (run sc (init n progs))) ++ contents (ch (run sc (init n progs))).
+Proof. exact run_fifo. Qed.
+Print Assumptions buffered_fifo_exactly_once.
+
+(* the receive events are what the calls return (any capacity): for every thread,
+   the values its ChanRecv/ChanTryRecv calls returned with ok = true (including the
+   result already fixed for a call that is about to Broadcast) are exactly its ERecv
+   events, in order *)
+Theorem recv_results_are_the_logged_receives : forall n progs sc t th,
+  nth_error (ths (run sc (init n progs))) t = Some th ->
+  received_by th = rcvd_of (events_of t (log (run sc (init n progs)))).
+Proof. exact run_tie. Qed.
+Print Assumptions recv_results_are_the_logged_receives.
+
+(* close, then drain, then zero/ok=false: a receive reports "closed" only after a
+   close and when everything sent before has been received; nothing is sent after close *)
+Theorem close_drains_then_zero : forall n progs sc l1 l2, 0 < n ->
+  events (run sc (init n progs)) = l1 ++ ERecvClosed :: l2 ->
+  In EClose l1 /\ sent_of l1 = rcvd_of l1.
+Proof. exact run_recv_closed. Qed.
+Print Assumptions close_drains_then_zero.
+
+Theorem nothing_sent_after_close : forall n progs sc l1 l2, 0 < n ->
+  events (run sc (init n progs)) = l1 ++ EClose :: l2 -> sent_of l2 = [].
+Proof. exact run_after_close. Qed.
+Print Assumptions nothing_sent_after_close.
+
+(* no lost wake-up: whenever no thread can run, every unfinished thread is parked
+   where Go would block it too - a sender in front of a full buffer, a receiver in
+   front of an empty open channel.  (A sender parked on a full CLOSED channel is
+   the defect send_full_then_close_refuted.) *)
+Theorem buffered_no_lost_wakeup : forall n progs sc, 0 < n ->
+  let s := run sc (init n progs) in
+  (forall th, In th (ths s) -> enabled th = false) ->
+  forall th, In th (ths s) -> prog th <> [] ->
+    parked th = true /\
+    ((tpc th = PSendW /\ len (ch s) = n) \/
+     (tpc th = PRecvW /\ len (ch s) = 0 /\ closed (ch s) = false)).
+Proof. exact quiescent_blocked_legit. Qed.
+Print Assumptions buffered_no_lost_wakeup.
+
+(* hence no blocked sender together with a blocked receiver *)
+Theorem buffered_no_stuck_pair : forall n progs sc, 0 < n ->
+  let s := run sc (init n progs) in
+  (forall th, In th (ths s) -> enabled th = false) ->
+  forall a b, In a (ths s) -> In b (ths s) -> prog a <> [] -> prog b <> [] ->
+    tpc a = PSendW -> tpc b = PRecvW -> False.
+Proof.
+  intros n progs sc Hn s Hq a b Ha Hb Pa Pb Ta Tb.
+  destruct (quiescent_blocked_legit n progs sc Hn Hq a Ha Pa) as [_ [[_ H1]|[H1 _]]]; [|congruence].
+  destruct (quiescent_blocked_legit n progs sc Hn Hq b Hb Pb) as [_ [[H2 _]|[_ [H2 _]]]]; [congruence|].
+  fold s in H1, H2. lia.
+Qed.
+Print Assumptions buffered_no_stuck_pair.
+
+(* ChanTrySend (any capacity) and ChanTryRecv (buffered) never wait: in every
+   reachable state the thread is runnable and finishes the call within two of its
+   own steps, whatever the others do.  Partial: ChanTryRecv on an unbuffered channel
+   does wait for the sender it chose (tryrecv_unbuffered_never_blocks_refuted). *)
+Theorem try_ops_never_block_partial : forall n progs sc t th o rest,
+  let s := run sc (init n progs) in
+  nth_error (ths s) t = Some th -> prog th = o :: rest ->
+  match o with OTrySend _ => True | OTryRecv => 0 < n | _ => False end ->
+  parked th = false /\
+  exists s1, step s t = Some s1 /\
+    (done_op t rest s1 \/ exists s2, step s1 t = Some s2 /\ done_op t rest s2).
+Proof. exact try_never_blocks. Qed.
+Print Assumptions try_ops_never_block_partial.
+
+Example nontrivial_run :
+  let s := run [0;1;0;2;1;2;0;0;1;1;2;2]%nat (init 2 [[OSend 5; OSend 6]; [ORecv; OClose]; [OTryRecv; ORecv]]) in
+  events s = [ESend 5%N; ERecv 5%N; ETryRecvEmpty; ESend 6%N; EClose; ERecv 6%N].
+Proof. reflexivity. Qed.
+
+(* ---- defects of the unchanged tree: explicit schedules ---- *)
+
+(* F4: unbuffered, two receivers and one sender.  7 was sent (ChanSend returned
+   true) and sits in receiver 0's buffer, nobody can run any more, receiver 0 is
+   still parked inside ChanRecv and no call has returned 7. *)
+Theorem recv_returns_after_delivery_refuted :
+  exists n progs sc, let s := run sc (init n progs) in
+    (forall th, In th (ths s) -> enabled th = false) /\ In (ESend 7%N) (events s) /\
+    (exists th, nth_error (ths s) 0 = Some th /\ prog th = [ORecv] /\ parked th = true /\ slot th = 7%N) /\
+    (forall th, In th (ths s) -> ~ In 7%N (received_by th)).
+Proof. exists 0%nat, [[ORecv]; [ORecv]; [OSend 7%N]], [0;0;0;1;2;2;1;0;1;1;0]%nat. exact f4_recv_blocked. Qed.
+Print Assumptions recv_returns_after_delivery_refuted.
+
+(* F19: unbuffered; the sender's call returned true, then close; the receiver
+   returns ok = false with the delivered 7 in its buffer: the value is lost *)
+Theorem recv_ok_after_delivery_refuted :
+  exists n progs sc, let s := run sc (init n progs) in
+    (forall th, In th (ths s) -> prog th = []) /\ In (ESend 7%N) (events s) /\
+    (exists th, nth_error (ths s) 0 = Some th /\ out th = [RRecv false 7%N]) /\
+    (exists th, nth_error (ths s) 1 = Some th /\ out th = [RSend true; RClose]).
+Proof. exists 0%nat, [[ORecv]; [OSend 7%N; OClose]], [0;0;0;1;1;1;0;1]%nat. exact f19_recv_reported_closed. Qed.
+Print Assumptions recv_ok_after_delivery_refuted.
+
+(* F4: a sender parked on a full buffer stays parked after close (Go: panic) *)
+Theorem send_full_then_close_refuted :
+  exists n progs sc, let s := run sc (init n progs) in
+    (forall th, In th (ths s) -> enabled th = false) /\ closed (ch s) = true /\
+    (exists th, nth_error (ths s) 0 = Some th /\ prog th = [OSend 6%N] /\ parked th = true /\ tpc th = PSendW).
+Proof. exists 1%nat, [[OSend 5%N; OSend 6%N]; [OClose]], [0;0;0;1;1;0]%nat. exact f4_send_full_close. Qed.
+Print Assumptions send_full_then_close_refuted.
+
+(* F5: ChanSend on a closed channel returns (false) instead of panicking, and a
+   second ChanClose returns normally *)
+Theorem send_closed_panics_refuted :
+  exists n progs sc, let s := run sc (init n progs) in
+    exists th, nth_error (ths s) 0 = Some th /\ prog th = [] /\ out th = [RClose; RSend false].
+Proof. exists 1%nat, [[OClose; OSend 5%N]], [0;0;0]%nat. exact f5_send_closed. Qed.
+Print Assumptions send_closed_panics_refuted.
+
+Theorem close_closed_panics_refuted :
+  exists n progs sc, let s := run sc (init n progs) in
+    exists th, nth_error (ths s) 0 = Some th /\ prog th = [] /\ out th = [RClose; RClose].
+Proof. exists 1%nat, [[OClose; OClose]], [0;0;0;0]%nat. exact f5_close_closed. Qed.
+Print Assumptions close_closed_panics_refuted.
+
+(* the non-blocking receive (select with default) on an unbuffered channel: it
+   took 7 from a blocked sender (whose call returned true), then a later receive
+   re-armed the hand-off flag: the try-receive is parked for ever *)
+Theorem tryrecv_unbuffered_never_blocks_refuted :
+  exists n progs sc, let s := run sc (init n progs) in
+    (forall th, In th (ths s) -> enabled th = false) /\
+    (exists th, nth_error (ths s) 1 = Some th /\ prog th = [OTryRecv] /\ parked th = true /\ slot th = 7%N) /\
+    (exists th, nth_error (ths s) 0 = Some th /\ out th = [RSend true]).
+Proof. exists 0%nat, [[OSend 7%N; ORecv]; [OTryRecv]], [0;1;1;0;0;0;0;1;0]%nat. exact tryrecv_blocks. Qed.
+Print Assumptions tryrecv_unbuffered_never_blocks_refuted.
